@@ -124,6 +124,8 @@ type rhTrans struct {
 	out     []rhEmit
 	tv, fv  []int
 	depth   int
+	// `continue` guards found at the head of the loop over target.AllSources() (Coq bexp ivar terms)
+	srcsSkip []string
 }
 
 func (tr *rhTrans) emit(e rhEmit) {
@@ -765,7 +767,19 @@ func (tr *rhTrans) rangeStmt(rs *ast.RangeStmt) {
 			tr.keyedBody(rs.Body.List, v, "", fieldInfo{e.F, "groups"}, e.Sorted)
 			return
 		}
-		tr.elementBody(rs.Body.List, v, kind, e)
+		body := rs.Body.List
+		if name == "AllSources" {
+			// leading `if _, ok := v.Label(); <cond over ok> { continue }` guards are translated (srcs_skip), not refused
+			for len(body) > 1 {
+				g, ok := tr.skipGuard(body[0], v)
+				if !ok {
+					break
+				}
+				tr.srcsSkip = append(tr.srcsSkip, g)
+				body = body[1:]
+			}
+		}
+		tr.elementBody(body, v, kind, e)
 		return
 	}
 	// 4. range over an attribute (slice) or directly over a map attribute
@@ -912,6 +926,7 @@ func ruleHashProg() string {
 	// RuleHash (the exported wrapper): translated, not pinned - the bypass condition and BuildCouldModifyTarget become
 	// boolean expressions that Proof/C08_Cache.v analyses by computation (gen_wrapper_ok)
 	wrapper := tr.ruleHashWrapper()
+	reader := tr.storedReader()
 
 	js, err := json.MarshalIndent(tr.out, "", " ")
 	if err != nil {
@@ -933,6 +948,18 @@ func ruleHashProg() string {
 	b.WriteString("\n].\n")
 	b.WriteString("(* build.RuleHash, the memoising wrapper of ruleHash, and BuildTarget.BuildCouldModifyTarget *)\n")
 	b.WriteString("Definition rule_hash_wrapper : wrapper :=\n  " + wrapper + ".\n")
+	b.WriteString("(* `continue` guards at the head of ruleHash's loop over target.AllSources(): a source is skipped when this holds *)\n")
+	skip := "(BConst false)"
+	for i, g := range tr.srcsSkip {
+		if i == 0 {
+			skip = g
+		} else {
+			skip = "(BOr " + skip + " " + g + ")"
+		}
+	}
+	b.WriteString("Definition srcs_skip : bexp ivar :=\n  " + skip + ".\n")
+	b.WriteString("(* body of the loop over target.FullOutputs() in build.readRuleHashFromXattrs *)\n")
+	b.WriteString("Definition stored_reader_body : rstmt :=\n  " + reader + ".\n")
 	return b.String()
 }
 
@@ -1071,4 +1098,243 @@ func (tr *rhTrans) ruleHashWrapper() string {
 		return ""
 	})
 	return "Wrapper " + bypass + " " + bypassRt + " " + fillRt + " " + could
+}
+
+// ---- guards of the AllSources loop
+
+// if _, ok := v.Label(); COND(ok) { continue }  ->  bexp ivar
+func (tr *rhTrans) skipGuard(st ast.Stmt, v string) (string, bool) {
+	is, ok := st.(*ast.IfStmt)
+	if !ok || is.Init == nil || is.Else != nil || len(is.Body.List) != 1 {
+		return "", false
+	}
+	br, ok := is.Body.List[0].(*ast.BranchStmt)
+	if !ok || br.Tok != token.CONTINUE || br.Label != nil {
+		return "", false
+	}
+	as, ok := is.Init.(*ast.AssignStmt)
+	if !ok || as.Tok != token.DEFINE || len(as.Lhs) != 2 || len(as.Rhs) != 1 || !isIdent(as.Lhs[0], "_") {
+		return "", false
+	}
+	okVar, isID := as.Lhs[1].(*ast.Ident)
+	if !isID || strings.Join(strings.Fields(tr.str(as.Rhs[0])), "") != v+".Label()" {
+		failShape("guard in the loop over AllSources(): %s is not `_, ok := %s.Label()`", tr.str(as), v)
+	}
+	return tr.bexp(tr.fset, is.Cond, "guard in the loop over AllSources()", func(e ast.Expr) string {
+		if isIdent(e, okVar.Name) {
+			return "IVIsLabel"
+		}
+		return ""
+	}), true
+}
+
+// ---- readRuleHashFromXattrs: the loop over the outputs is translated; the rest of the function and the statements of
+// needsBuilding / writeRuleHash / targetHash / Outputs / FullOutputs that the store model (Model/C08_Store.v) is read off are pinned
+
+func normStmt(x string) string { return strings.Join(strings.Fields(x), " ") }
+
+// requireStmts: every wanted statement occurs in the body, in this order (other statements may lie between them)
+func requireStmts(what string, got, want []string) {
+	i := 0
+	for _, g := range got {
+		if i < len(want) && normStmt(g) == normStmt(want[i]) {
+			i++
+		}
+	}
+	if i < len(want) {
+		failShape("%s: statement not found (in order): %s", what, want[i])
+	}
+}
+
+type readerTrans struct {
+	tr     *rhTrans
+	h, b   string
+	output string
+}
+
+func (rt *readerTrans) rvar(e ast.Expr) string {
+	id, ok := e.(*ast.Ident)
+	if ok && id.Name == rt.h {
+		return "RVh"
+	}
+	if ok && rt.b != "" && id.Name == rt.b {
+		return "RVb"
+	}
+	failShape("readRuleHashFromXattrs: %s is neither the accumulated record nor the record just read", rt.tr.str(e))
+	return ""
+}
+
+func (rt *readerTrans) rexp(e ast.Expr) string {
+	if normStmt(rt.tr.str(e)) == "fs.ReadAttr("+rt.output+", xattrName, state.XattrsSupported)" {
+		return "RRead"
+	}
+	return "(RVar " + rt.rvar(e) + ")"
+}
+
+func (rt *readerTrans) cond(e ast.Expr) string {
+	switch x := e.(type) {
+	case *ast.ParenExpr:
+		return rt.cond(x.X)
+	case *ast.UnaryExpr:
+		if x.Op == token.NOT {
+			return "(BNot " + rt.cond(x.X) + ")"
+		}
+	case *ast.BinaryExpr:
+		switch x.Op {
+		case token.LOR:
+			return "(BOr " + rt.cond(x.X) + " " + rt.cond(x.Y) + ")"
+		case token.LAND:
+			return "(BAnd " + rt.cond(x.X) + " " + rt.cond(x.Y) + ")"
+		case token.EQL:
+			if isIdent(x.Y, "nil") {
+				return "(BVar (RNil " + rt.rvar(x.X) + "))"
+			}
+		case token.NEQ:
+			if isIdent(x.Y, "nil") {
+				return "(BNot (BVar (RNil " + rt.rvar(x.X) + ")))"
+			}
+		}
+	case *ast.CallExpr:
+		if normStmt(rt.tr.str(x.Fun)) == "bytes.Equal" && len(x.Args) == 2 {
+			if rt.rvar(x.Args[0]) != rt.rvar(x.Args[1]) {
+				return "(BVar REqual)"
+			}
+		}
+	}
+	failShape("readRuleHashFromXattrs: condition %s not recognised", rt.tr.str(e))
+	return ""
+}
+
+func (rt *readerTrans) assign(as *ast.AssignStmt) string {
+	if len(as.Lhs) != 1 || len(as.Rhs) != 1 {
+		failShape("readRuleHashFromXattrs: assignment %s not recognised", rt.tr.str(as))
+	}
+	id, ok := as.Lhs[0].(*ast.Ident)
+	if !ok {
+		failShape("readRuleHashFromXattrs: assignment %s not recognised", rt.tr.str(as))
+	}
+	rhs := rt.rexp(as.Rhs[0]) // before a := declaration takes effect
+	switch as.Tok {
+	case token.DEFINE:
+		if (rt.b != "" && rt.b != id.Name) || id.Name == rt.h {
+			failShape("readRuleHashFromXattrs: a second variable %s is declared in the loop", id.Name)
+		}
+		rt.b = id.Name
+	case token.ASSIGN:
+	default:
+		failShape("readRuleHashFromXattrs: assignment %s not recognised", rt.tr.str(as))
+	}
+	return "(RAssign " + rt.rvar(id) + " " + rhs + ")"
+}
+
+// statements are translated first to last (the declaration of b must be seen before its uses)
+func (rt *readerTrans) stmt(st ast.Stmt) string {
+	switch x := st.(type) {
+	case *ast.AssignStmt:
+		return rt.assign(x)
+	case *ast.ReturnStmt:
+		if len(x.Results) == 1 && normStmt(rt.tr.str(x.Results[0])) == "ruleHashes{}" {
+			return "RReturnEmpty"
+		}
+	case *ast.BlockStmt:
+		return rt.seq(x.List)
+	case *ast.IfStmt:
+		init := ""
+		if x.Init != nil {
+			as, ok := x.Init.(*ast.AssignStmt)
+			if !ok {
+				failShape("readRuleHashFromXattrs: if-initialiser %s not recognised", rt.tr.str(x.Init))
+			}
+			init = rt.assign(as)
+		}
+		c := rt.cond(x.Cond)
+		th := rt.seq(x.Body.List)
+		el := "RSkip"
+		if x.Else != nil {
+			el = rt.stmt(x.Else)
+		}
+		out := "(RIf " + c + " " + th + " " + el + ")"
+		if init != "" {
+			out = "(RSeq " + init + " " + out + ")"
+		}
+		return out
+	}
+	failShape("readRuleHashFromXattrs: statement in the loop over the outputs not recognised: %s", rt.tr.str(st))
+	return ""
+}
+
+func (rt *readerTrans) seq(list []ast.Stmt) string {
+	parts := make([]string, len(list))
+	for i, st := range list {
+		parts[i] = rt.stmt(st)
+	}
+	if len(parts) == 0 {
+		return "RSkip"
+	}
+	out := parts[len(parts)-1]
+	for i := len(parts) - 2; i >= 0; i-- {
+		out = "(RSeq " + parts[i] + " " + out + ")"
+	}
+	return out
+}
+
+func (tr *rhTrans) storedReader() string {
+	fd := findFunc(tr.file, "", "readRuleHashFromXattrs")
+	body := fd.Body.List
+	if len(body) < 3 {
+		failShape("readRuleHashFromXattrs: body too short")
+	}
+	// var h []byte
+	ds, ok := body[0].(*ast.DeclStmt)
+	if !ok {
+		failShape("readRuleHashFromXattrs: first statement is not `var h []byte`")
+	}
+	gd, ok := ds.Decl.(*ast.GenDecl)
+	if !ok || gd.Tok != token.VAR || len(gd.Specs) != 1 {
+		failShape("readRuleHashFromXattrs: first statement is not `var h []byte`")
+	}
+	vs := gd.Specs[0].(*ast.ValueSpec)
+	if len(vs.Names) != 1 || len(vs.Values) != 0 || vs.Type == nil || tr.str(vs.Type) != "[]byte" {
+		failShape("readRuleHashFromXattrs: first statement is not `var h []byte`")
+	}
+	rt := &readerTrans{tr: tr, h: vs.Names[0].Name}
+	// for _, output := range target.FullOutputs() { ... }
+	rs, ok := body[1].(*ast.RangeStmt)
+	if !ok || rs.Tok != token.DEFINE || !isIdent(rs.Key, "_") || rs.Value == nil || normStmt(tr.str(rs.X)) != "target.FullOutputs()" {
+		failShape("readRuleHashFromXattrs: second statement is not `for _, output := range target.FullOutputs()`")
+	}
+	rt.output = rs.Value.(*ast.Ident).Name
+	reader := rt.seq(rs.Body.List)
+	// the rest of the function: pinned (the fallback for targets without outputs and the slicing of the record)
+	rest := []string{}
+	for _, st := range body[2:] {
+		rest = append(rest, tr.str(st))
+	}
+	h := rt.h
+	matchBody("readRuleHashFromXattrs (after the loop)", rest, []string{
+		"if " + h + " == nil { if target.BuildCouldModifyTarget() && !postBuild { " + h + " = fs.ReadAttr(targetBuildMetadataFileName(target), xattrName, state.XattrsSupported) if " + h + " == nil { return ruleHashes{} } } else { " + h + " = fs.ReadAttrFile(filepath.Join(target.OutDir(), target.Label.Name)) if " + h + " == nil { return ruleHashes{} } } }",
+		"if postBuild { return ruleHashes{ rule: " + h + "[hashLength : 2*hashLength], config: " + h + "[2*hashLength : 3*hashLength], source: " + h + "[3*hashLength : 4*hashLength], secret: " + h + "[4*hashLength : fullHashLength], postBuildHash: true, } }",
+		"return ruleHashes{ rule: " + h + "[0:hashLength], config: " + h + "[2*hashLength : 3*hashLength], source: " + h + "[3*hashLength : 4*hashLength], secret: " + h + "[4*hashLength : fullHashLength], }"}, -1)
+	// needsBuilding: the stored rule hash is compared with the current one, a difference means rebuild
+	requireStmts("needsBuilding", bodyStrings(tr.fset, findFunc(tr.file, "", "needsBuilding")), []string{
+		"oldHashes := readRuleHashFromXattrs(state, target, postBuild)",
+		"newRuleHash := RuleHash(state, target, false, postBuild)",
+		"if !bytes.Equal(oldHashes.rule, newRuleHash) { log.Debug(\"Need to rebuild %s, rule has changed (was %s, need %s)\", target.Label, b64(oldHashes.rule), b64(newRuleHash)) return true }"})
+	// writeRuleHash stamps every output with one record that starts with the two rule hashes
+	requireStmts("writeRuleHash", bodyStrings(tr.fset, findFunc(tr.file, "", "writeRuleHash")), []string{
+		"hash, err := targetHash(state, target)",
+		"outputs := target.FullOutputs()",
+		"for _, output := range outputs { if err := fs.RecordAttr(output, hash, xattrName, state.XattrsSupported); err != nil { return err } }"})
+	requireStmts("targetHash", bodyStrings(tr.fset, findFunc(tr.file, "", "targetHash")), []string{
+		"hash := append(RuleHash(state, target, false, false), RuleHash(state, target, false, true)...)"})
+	// the outputs the loop ranges over (hand-modelled: Model/C08_Store.v outputs_of)
+	matchBody("BuildTarget.FullOutputs", tr.coreBody("BuildTarget", "FullOutputs"), []string{
+		"outs := target.Outputs()", "outDir := target.OutDir()",
+		"for i, out := range outs { outs[i] = filepath.Join(outDir, out) }", "return outs"}, -1)
+	matchBody("BuildTarget.Outputs", tr.coreBody("BuildTarget", "Outputs"), []string{
+		"var ret []string",
+		"if target.IsFilegroup { ret = target.filegroupOutputs(target.AllSources()) } else { ret = make([]string, len(target.outputs)) copy(ret, target.outputs) }",
+		"if target.namedOutputs != nil { for _, outputs := range target.namedOutputs { ret = append(ret, outputs...) } }",
+		"sort.Strings(ret)", "return ret"}, -1)
+	return reader
 }
